@@ -94,6 +94,31 @@ func scalarEmitCheck(c *Ctx, kn string, evs []*Emit, ptrOK func(ssa.Value) bool)
 	if !ok || !ks.scalar {
 		return []string{"case for non-scalar kind " + kn}
 	}
+	// a big-endian integer written out byte by byte (byte(v>>24), byte(v>>16), byte(v>>8), byte(v)) is the emission of v
+	// with that width: the same thing appendUintN does (rule T3 reads the helpers' own bodies)
+	var canon []*Emit
+	for _, e := range evs {
+		if e.Kind == "bytes" && (e.N == 2 || e.N == 4 || e.N == 8) && len(e.Srcs) == e.N {
+			var base ssa.Value
+			okShift := true
+			for i, sv := range e.Srcs {
+				x, kk, ok := shiftOf(sv)
+				if !ok || kk != int64(8*(e.N-1-i)) || base != nil && x != base {
+					okShift = false
+					break
+				}
+				base = x
+			}
+			if okShift && base != nil {
+				cp := *e
+				cp.Kind, cp.Srcs = "uint", []ssa.Value{base}
+				canon = append(canon, &cp)
+				continue
+			}
+		}
+		canon = append(canon, e)
+	}
+	evs = canon
 	srcLoad := func(v ssa.Value) (*loadDesc, bool, bool) { // load, viaLen, narrowed
 		viaLen, c32 := false, false
 		for {
@@ -600,6 +625,10 @@ func ruleT9(c *Ctx) []Ob {
 					continue
 				}
 				_, _, f, isField := fieldOf(tx)
+				if !isField && wtParam(c, tx) {
+					s.ok(key, c.InstrPos(e.Instr), "type byte is a parameter that every caller fills with a WT field")
+					continue
+				}
 				s.check(isField && f == "WT", key, c.InstrPos(e.Instr), "type byte is "+path(tx), "type byte is taken from "+path(tx)+": the wire type WT must be used (ENUM travels as I32, binary as STRING)")
 			}
 		}
@@ -764,6 +793,44 @@ func ruleT9(c *Ctx) []Ob {
 	return s.obs
 }
 
+// wtParam: v is a parameter of type ttype of a module function all of whose callers pass the WT field of a descriptor (the
+// helper was given the wire type instead of the descriptor).
+func wtParam(c *Ctx, v ssa.Value) bool {
+	prm, ok := v.(*ssa.Parameter)
+	if !ok || c == nil || namedOf(prm.Type()) != "ttype" {
+		return false
+	}
+	fn := prm.Parent()
+	idx := -1
+	for i, q := range fn.Params {
+		if q == prm {
+			idx = i
+		}
+	}
+	if idx < 0 {
+		return false
+	}
+	if c.addrTaken()[fn] {
+		return false
+	}
+	n := 0
+	for _, g := range c.ModuleFuncs(fnPkgPath(fn)) {
+		for _, b := range g.Blocks {
+			for _, ins := range b.Instrs {
+				ci, ok := ins.(ssa.CallInstruction)
+				if !ok || ci.Common().StaticCallee() != fn || idx >= len(ci.Common().Args) {
+					continue
+				}
+				n++
+				if _, _, f, isField := fieldOf(ci.Common().Args[idx]); !isField || f != "WT" {
+					return false
+				}
+			}
+		}
+	}
+	return n > 0
+}
+
 // listHeaderEvent checks one five-byte emission as a list header: [desc.WT, count big-endian] where the count is 0 exactly
 // where the slice's first word is nil and uint32(len) elsewhere. It returns the count value of a live header.
 func listHeaderEvent(e *Emit, descPath string, pparam ssa.Value) (good bool, why string, live bool, count ssa.Value) {
@@ -800,7 +867,7 @@ func listHeaderEvent(e *Emit, descPath string, pparam ssa.Value) (good bool, why
 		return ok && strings.HasSuffix(path(cv.X), ".Len") && namedOf(fieldRecvType(cv.X)) == "sliceHeader"
 	}
 	tb, isConv := typeByteSrc(e.Srcs[0])
-	good = isConv && path(tb) == descPath+".WT"
+	good = isConv && (path(tb) == descPath+".WT" || wtParam(tableCtx, tb))
 	why = "type byte is not " + descPath + ".WT"
 	allZero := true
 	for _, sv := range e.Srcs[1:] {
